@@ -5,7 +5,7 @@ from symx.api import *
 
 PROPERTY = 'C06'
 LEVEL = 'other'
-FILES = ['mesonbuild/utils/universal.py', 'mesonbuild/mintro.py', 'mesonbuild/backend/ninjabackend.py', 'mesonbuild/backend/backends.py', 'mesonbuild/options.py', 'mesonbuild/coredata.py']
+FILES = ['mesonbuild/utils/universal.py', 'mesonbuild/mintro.py', 'mesonbuild/backend/ninjabackend.py', 'mesonbuild/backend/backends.py', 'mesonbuild/options.py', 'mesonbuild/coredata.py', 'mesonbuild/modules/pkgconfig.py']
 ENCODED = ['mesonlib.replace_if_different (content comparison decides whether the destination is touched; file system = a dictionary with a per-file generation counter)',
            'mintro._list_buildoptions (options inserted into the store in a symbolic order)', 'NinjaBuildElement.add_dep/add_orderdep/write (dependencies inserted in a symbolic order)',
            'mesonlib.OrderedSet / unique_list (first-occurrence order, whatever the duplicates)', 'EnvironmentVariables.set/unset/get_env/hash (digest input of the exe-wrapper pickle name; the hasher is a recorder)', 'options.OptionKey.__lt__/__le__/__gt__/__ge__/__eq__ (what every sorted-by-key writer relies on)']
@@ -455,6 +455,39 @@ def ob_regen_filelist():
     return h
 
 
+def ob_pkgconfig_reqs():
+    """generated pkg-config files: the Requires: line built by the real DependenciesHelper.add_version_reqs / format_reqs for a package with 2-3 version
+    constraints (collected in a set) is the same whatever order that set is iterated in (= whatever the hash seed)"""
+    def h():
+        from collections import defaultdict
+        from mesonbuild.modules import pkgconfig as PC
+        order = [None]
+
+        class HSet(IOSet):
+            def __iter__(s_):
+                items = list(s_.d)
+                return iter(order[0](items) if order[0] is not None and len(items) > 1 else items)
+
+        def adversary(items):
+            left = list(items); out = []
+            while left: out.append(left.pop(choose(len(left), 'set order %d' % len(left))))
+            return out
+        n = 2 + choose(2, 'constraints')
+        cons = ['>=2.' + sym_str(1, 'd0', alphabet='0123456789'), '<3.0', '!=2.' + sym_str(1, 'd2', alphabet='0123456789')][:n]
+        hp = object.__new__(PC.DependenciesHelper)
+        hp.version_reqs = defaultdict(HSet)
+        hp.state = types.SimpleNamespace(subproject='')
+        split = choose(2, 'added in two calls') == 1
+        if split: hp.add_version_reqs('glib', cons[:1]); hp.add_version_reqs('glib', cons[1:])
+        else: hp.add_version_reqs('glib', cons)
+        first = hp.format_reqs(['glib', 'zlib'])
+        order[0] = adversary
+        second = hp.format_reqs(['glib', 'zlib'])
+        check(len(first) == len(second) and decide(bt_any(eq(first, second))), 'the Requires: line does not depend on the iteration order of the constraint set')
+        cover('done')
+    return h
+
+
 def obligations(tier):
     return [Obligation('replace-if-different', ob_replace(), dict(old='absent | 0-2 chars over a b newline', new='0-2 chars'), labels=('kept', 'replaced')),
             Obligation('configure-file-untouched', ob_configure_file_untouched(), dict(real='do_conf_file -> do_conf_str -> replace_if_different, twice', format='meson | cmake@', template='0-4 chars over @ K a newline', values='1 char each run, equal or not'),
@@ -464,6 +497,7 @@ def obligations(tier):
             Obligation('optionkey-order', ob_optionkey_order(), dict(keys='2: name 1 char over abc, subproject None | "" | a | b, machine host | build'), labels=('done',)),
             Obligation('env-hash-order', ob_env_hash(), dict(variables='2 set + 2 unset, distinct symbolic names', order='every permutation'), labels=('done',)),
             Obligation('regen-filelist-order', ob_regen_filelist(), dict(real='Backend.get_regen_filelist', machine_files='1-2 cross + 1-2 native, distinct symbolic names', set_order='adversarial permutation'), labels=('done',)),
+            Obligation('pkgconfig-reqs-order', ob_pkgconfig_reqs(), dict(real='modules.pkgconfig.DependenciesHelper.add_version_reqs / format_reqs / format_vreq', constraints='2-3 on one package (symbolic digits), added in one or two calls', set_order='adversarial permutation'), labels=('done',)),
             Obligation('unique-list', ob_ordered(), dict(elements='1-4 symbolic'), labels=('done',)),
             Obligation('dependency-cache-machines', ob_dependency_cache_machines(), dict(real='coredata.CoreData.__init__, DependencyCache, OptionStore.set_option', build='native | cross', dependency_type='pkgconfig | cmake', changed_path='host | build machine'), labels=('native', 'cross')),
             Obligation('dependency-cache-history', ob_dependency_cache(3 if tier == 'quick' else 4), dict(steps=3 if tier == 'quick' else 4, operations='put (3 dependency types) | get | set pkg_config_path | set cmake_prefix_path', keys=2, paths='[] /A /B', persistence='optional pickle round trip before every step'), labels=('done',), max_paths=3000000)]
